@@ -579,6 +579,9 @@ def sh_mul(a, b):
                 raise Unsupported('repetition of a multi-element literal by a symbolic count')
             cnt = core.s_max(k, 0)
             return mk('t' if isinstance(s, builtins.str) else 'b', [Fill(s, cnt)])
+    for s, k in ((a, b), (b, a)):
+        if isinstance(k, SInt) and isinstance(s, (builtins.list, builtins.tuple)):
+            return s * core.cur().concretize(k, limit=64)          # repetition of a list: the count is enumerated
     return a * b
 
 
